@@ -305,7 +305,7 @@ func runFaultScript(k faultCase) faultObs {
 		close(collected)
 	}()
 	waitOrHang(done, caseWatchdog, "file handler did not return")
-	waitOrHang(collected, caseWatchdog, "message channel was not closed after the file handler returned")
+	waitOrHangGone(collected, caseWatchdog, "message channel was not closed after the file handler returned")
 	sr.mu.Lock()
 	defer sr.mu.Unlock()
 	obs.supplied = sr.supplied
